@@ -55,6 +55,8 @@ ExpTbl(ev) ==
 \* i == j as logged when the later of the two registers was created
 Related(i, j) == IF i < j THEN i \in SeqToSet(Evs[j].eq) ELSE j \in SeqToSet(Evs[i].eq)
 
+OperandsOk(ev) == (ev.a = 0 \/ regs[ev.a].ok) /\ (ev.b = 0 \/ regs[ev.b].ok)
+
 \* ---- clauses, each attributed to exactly one property (DESIGN appendix A)
 Failing(ev) ==
   IF ev.exc # "" THEN
@@ -70,6 +72,9 @@ Failing(ev) ==
       eqr == SeqToSet(ev.eq_rev)
       hs  == SeqToSet(ev.hash_eq)
       prev == { j \in 1..(l - 1) : Evs[j].op # "law" /\ Evs[j].exc = "" }     \* registers that hold a value
+      \* the expected candidate table of a result is computed from the tables of its operands; once an operand's object
+      \* has left its expected denotation (reported at that event), tables derived from it say nothing about later objects
+      opsok == OperandsOk(ev)
   IN
   (IF ev.op \in {"and", "or", "not"} /\ d # ed THEN {<<"C01", "den">>} ELSE {}) \cup
   (IF ~Canonical(ev.shape) THEN {<<"C05", "canonical">>} ELSE {}) \cup
@@ -78,17 +83,17 @@ Failing(ev) ==
   (IF \E j \in prev : (j \in eqs) # (DenOf(j) = d) THEN {<<"C05", "eq_exact">>} ELSE {}) \cup
   \* the same three observers against the EXACT candidate table (packaging's verdict on the leaves, combined by
   \* Boolean algebra): sound in this direction only, the candidates being a finite sample of the final releases
-  (IF ev.is_empty /\ ~AllFalse(et) THEN {<<"C05", "is_empty_but_admits">>} ELSE {}) \cup
-  (IF ev.is_any /\ ~AllTrue(et) THEN {<<"C05", "is_any_but_rejects">>} ELSE {}) \cup
-  (IF \E j \in eqs : j \in prev /\ regs[j].tbl # et THEN {<<"C05", "eq_but_different_versions">>} ELSE {}) \cup
+  (IF opsok /\ ev.is_empty /\ ~AllFalse(et) THEN {<<"C05", "is_empty_but_admits">>} ELSE {}) \cup
+  (IF opsok /\ ev.is_any /\ ~AllTrue(et) THEN {<<"C05", "is_any_but_rejects">>} ELSE {}) \cup
+  (IF opsok /\ d = ed /\ \E j \in eqs : j \in prev /\ regs[j].ok /\ regs[j].tbl # et THEN {<<"C05", "eq_but_different_versions">>} ELSE {}) \cup
   (IF eqs # eqr THEN {<<"C13", "eq_symmetric">>} ELSE {}) \cup
   (IF ~ev.eq_self THEN {<<"C13", "eq_reflexive">>} ELSE {}) \cup
   (IF ~(eqs \subseteq hs) THEN {<<"C13", "eq_implies_hash">>} ELSE {}) \cup
   (IF \E i \in eqs, j \in prev : j # i /\ Related(i, j) /\ j \notin eqs
       THEN {<<"C13", "eq_transitive">>} ELSE {}) \cup
-  (IF ev.op # "reparse" /\ ev.cand # et THEN {<<"C04", "in_table">>} ELSE {}) \cup
-  (IF ev.op # "reparse" /\ ev.cand_contains # et THEN {<<"C04", "contains_table">>} ELSE {}) \cup
-  (IF ev.op = "reparse" /\ ev.cand # et THEN {<<"C06", "roundtrip_membership">>} ELSE {}) \cup
+  (IF opsok /\ ev.op # "reparse" /\ ev.cand # et THEN {<<"C04", "in_table">>} ELSE {}) \cup
+  (IF opsok /\ ev.op # "reparse" /\ ev.cand_contains # et THEN {<<"C04", "contains_table">>} ELSE {}) \cup
+  (IF opsok /\ ev.op = "reparse" /\ ev.cand # et THEN {<<"C06", "roundtrip_membership">>} ELSE {}) \cup
   (IF ev.op = "reparse" /\ (d # ed \/ ~ev.eq_orig) THEN {<<"C06", "roundtrip">>} ELSE {}) \cup
   (IF ev.op = "law" /\ ~(ev.law_eq /\ ev.law_eq_rev) THEN {<<"C14", ev.law>>} ELSE {}) \cup
   (IF ev.op = "law" /\ ~ev.law_hash THEN {<<"C13", "law_hash">>} ELSE {})
@@ -108,8 +113,9 @@ TraceNext ==
                   ELSE Failing(ev)
      IN /\ (bad # {} => PrintT(<<"REJECT", Sessions[sid].sid, l, bad>>))
         /\ regs' = Append(regs, IF ev.exc # "" \/ ev.op = "law"
-                                  THEN [shape |-> E, tbl |-> <<>>]
-                                  ELSE [shape |-> ev.shape, tbl |-> ExpTbl(ev)])
+                                  THEN [shape |-> E, tbl |-> <<>>, ok |-> FALSE]
+                                  ELSE [shape |-> ev.shape, tbl |-> ExpTbl(ev),
+                                        ok |-> OperandsOk(ev) /\ Den(ev.shape) = ExpDen(ev)])
         /\ l' = l + 1
         /\ UNCHANGED sid
 TraceSpec == TraceInit /\ [][TraceNext]_tvars
